@@ -302,11 +302,15 @@ theorem waitContext_gives_up {v : Int} {s : FState} (hr : FReach FCfg.gen s) (hv
 
 /-- **Lazy runs its function once and gives every caller that result** (`Lazy` is
 `sync.OnceValue` — `lazyOnceGen`, regenerated from the body of `Lazy`; `sync.OnceValue` is modelled
-by its specification; concurrent first calls included): `f` is started at most once, and any two
-calls that have returned returned the same value, the one `f` produced. -/
+by its specification, which includes a run of `f` that does not return: "If f panics, the returned
+function will panic with the same value on every call"; concurrent first calls included). "That
+result" is the outcome `o : LOut` of the single run — `.val v` (`f` returned `v`) or `.pan v` (`f`
+panicked with `v`): `f` is started at most once, and any two calls that have ended ended with the
+same outcome, the one the run of `f` produced — in particular no call returns a value when the run
+panicked, and no call panics when the run returned. -/
 theorem lazy_once {s : LState} (hr : LReach lazyOnceGen s) :
     s.runs ≤ 1 ∧
-    ∀ (j k : Nat) (r r' : Int), s.callers[j]? = some (.done r) → s.callers[k]? = some (.done r') →
+    ∀ (j k : Nat) (r r' : LOut), s.callers[j]? = some (.done r) → s.callers[k]? = some (.done r') →
       r = r' ∧ s.once = .done r ∧ s.runs = 1 := by
   have hgen : lazyOnceGen = true := by decide
   rw [hgen] at hr
@@ -327,8 +331,15 @@ theorem lazy_once {s : LState} (hr : LReach lazyOnceGen s) :
       subst e1; subst e2
       exact ⟨rfl, rfl, h1⟩
 
-example : ∃ s, LReach lazyOnceGen s ∧ s.callers = [.done 4, .done 4, .done 4] ∧ s.runs = 1 :=
-  ⟨_, .step (.wake 1) (.step (.enter 2) (.step (.finish 0 4) (.step (.enter 1) (.step (.enter 0) (.init 3) rfl) rfl) rfl) rfl) rfl,
+/-- three callers, the first runs `f` (returns 4) while the second is parked behind it, the third comes later -/
+example : ∃ s, LReach lazyOnceGen s ∧ s.callers = [.done (.val 4), .done (.val 4), .done (.val 4)] ∧ s.runs = 1 :=
+  ⟨_, .step (.wake 1) (.step (.enter 2) (.step (.finish 0 (.val 4)) (.step (.enter 1) (.step (.enter 0) (.init 3) rfl) rfl) rfl) rfl) rfl,
+    by decide, by decide⟩
+
+/-- the same schedule with a run of `f` that panics with 7: the parked caller and the later caller
+panic with 7 as well, `f` is not run again -/
+example : ∃ s, LReach lazyOnceGen s ∧ s.callers = [.done (.pan 7), .done (.pan 7), .done (.pan 7)] ∧ s.runs = 1 :=
+  ⟨_, .step (.wake 1) (.step (.enter 2) (.step (.finish 0 (.pan 7)) (.step (.enter 1) (.step (.enter 0) (.init 3) rfl) rfl) rfl) rfl) rfl,
     by decide, by decide⟩
 
 end Juniper.Props.C18
